@@ -311,17 +311,37 @@ theorem nodup_instOnlyF (n : Nat) (h : Hier) (c : ClassId) : (keys (instOnlyF n 
   | zero => simp [instOnlyF, keys]
   | succ n => exact nodup_update _ _ (nodup_mergeBases _ _ _ (by simp [keys]))
 
-theorem nodup_baseClassAttrs (n : Nat) (h : Hier) (b : Base) :
-    (keys (baseClassAttrs (classAttrsF n h) b)).Nodup := by
+theorem nodup_classAttrsG (n : Nat) (busy : List ClassId) (h : Hier) (c : ClassId) :
+    (keys (classAttrsG n busy h c)).Nodup := by
+  cases n with
+  | zero => simp [classAttrsG, keys]
+  | succ n =>
+    simp only [classAttrsG]
+    split
+    · simp [keys]
+    · exact nodup_update _ _ (nodup_mergeBases _ _ _ (by simp [keys]))
+
+theorem nodup_instOnlyG (n : Nat) (busy : List ClassId) (h : Hier) (c : ClassId) :
+    (keys (instOnlyG n busy h c)).Nodup := by
+  cases n with
+  | zero => simp [instOnlyG, keys]
+  | succ n =>
+    simp only [instOnlyG]
+    split
+    · simp [keys]
+    · exact nodup_update _ _ (nodup_mergeBases _ _ _ (by simp [keys]))
+
+theorem nodup_baseClassAttrs (n : Nat) (busy : List ClassId) (h : Hier) (b : Base) :
+    (keys (baseClassAttrs (classAttrsG n busy h) b)).Nodup := by
   cases b with
-  | src d => exact nodup_classAttrsF n h d
+  | src d => exact nodup_classAttrsG n busy h d
   | builtin nm a i => exact nodup_fromKeys _ _
   | unknown => simp [baseClassAttrs, keys]
 
-theorem nodup_baseInstOnly (n : Nat) (h : Hier) (b : Base) :
-    (keys (baseInstOnly (instOnlyF n h) b)).Nodup := by
+theorem nodup_baseInstOnly (n : Nat) (busy : List ClassId) (h : Hier) (b : Base) :
+    (keys (baseInstOnly (instOnlyG n busy h) b)).Nodup := by
   cases b with
-  | src d => exact nodup_instOnlyF n h d
+  | src d => exact nodup_instOnlyG n busy h d
   | builtin nm a i => simp [baseInstOnly, keys]
   | unknown => simp [baseInstOnly, keys]
 
@@ -336,22 +356,45 @@ theorem okF_base {n : Nat} {h : Hier} {c : ClassId} (hok : okF (n + 1) h c = tru
   simp only [okF, List.all_eq_true] at hok
   exact hok _ hd
 
-/-- closed form of the class table: the first MRO entry defining `x` -/
-theorem get_classAttrsF (n : Nat) (h : Hier) (c : ClassId) (x : String) (hok : okF n h c = true) :
-    get (classAttrsF n h c) x = (mroF n h c).findSome? (classEntry h x) := by
-  induction n generalizing c with
-  | zero => simp [okF] at hok
+theorem okG_base {n : Nat} {busy : List ClassId} {h : Hier} {c : ClassId} (hok : okG (n + 1) busy h c = true)
+    {d : ClassId} (hd : Base.src d ∈ (getDef h c).bases) : okG n (c :: busy) h d = true := by
+  simp only [okG, Bool.and_eq_true, List.all_eq_true] at hok
+  exact hok.2 _ hd
+
+theorem okG_not_busy {n : Nat} {busy : List ClassId} {h : Hier} {c : ClassId}
+    (hok : okG (n + 1) busy h c = true) : c ∉ busy := by
+  simp only [okG, Bool.and_eq_true, decide_eq_true_eq] at hok
+  exact hok.1
+
+theorem okF_of_okG (n : Nat) (busy : List ClassId) (h : Hier) (c : ClassId) (hok : okG n busy h c = true) :
+    okF n h c = true := by
+  induction n generalizing busy c with
+  | zero => simp [okG] at hok
   | succ n ih =>
-    simp only [classAttrsF, mroF]
+    simp only [okF, List.all_eq_true]
+    intro b hb
+    cases b with
+    | src d => exact ih _ d (okG_base hok hb)
+    | builtin nm a i => rfl
+    | unknown => rfl
+
+/-- closed form of the class table: the first MRO entry defining `x` -/
+theorem get_classAttrsG (n : Nat) (busy : List ClassId) (h : Hier) (c : ClassId) (x : String)
+    (hok : okG n busy h c = true) :
+    get (classAttrsG n busy h c) x = (mroF n h c).findSome? (classEntry h x) := by
+  induction n generalizing c busy with
+  | zero => simp [okG] at hok
+  | succ n ih =>
+    simp only [classAttrsG, mroF, if_neg (okG_not_busy hok)]
     rw [get_update_dict _ _ _ (nodup_clsAttrs _), get_clsAttrs,
-      get_mergeBases _ _ _ _ (fun b _ => nodup_baseClassAttrs n h b)]
+      get_mergeBases _ _ _ _ (fun b _ => nodup_baseClassAttrs n (c :: busy) h b)]
     simp only [List.findSome?_cons, classEntry, findSome?_flatMap, Dict.get_nil, Option.or_none]
-    have hb : (getDef h c).bases.findSome? (fun b => get (baseClassAttrs (classAttrsF n h) b) x) =
+    have hb : (getDef h c).bases.findSome? (fun b => get (baseClassAttrs (classAttrsG n (c :: busy) h) b) x) =
         (getDef h c).bases.findSome? (fun a => (baseMro (mroF n h) a).findSome? (classEntry h x)) := by
       apply findSome?_congr_mem
       intro b hbm
       cases b with
-      | src d => exact ih d (okF_base hok hbm)
+      | src d => exact ih _ d (okG_base hok hbm)
       | builtin nm a i =>
         simp only [baseClassAttrs, get_fromKeys, baseMro, List.findSome?_cons, classEntry,
           List.findSome?_nil]
@@ -361,21 +404,22 @@ theorem get_classAttrsF (n : Nat) (h : Hier) (c : ClassId) (x : String) (hok : o
     cases Option.map Val.site (bodyLookup (getDef h c).body x) <;> rfl
 
 /-- closed form of the instance-assignment table: the first class of the MRO assigning `x` through self -/
-theorem get_instOnlyF (n : Nat) (h : Hier) (c : ClassId) (x : String) (hok : okF n h c = true) :
-    get (instOnlyF n h c) x = (mroF n h c).findSome? (instEntry h x) := by
-  induction n generalizing c with
-  | zero => simp [okF] at hok
+theorem get_instOnlyG (n : Nat) (busy : List ClassId) (h : Hier) (c : ClassId) (x : String)
+    (hok : okG n busy h c = true) :
+    get (instOnlyG n busy h c) x = (mroF n h c).findSome? (instEntry h x) := by
+  induction n generalizing c busy with
+  | zero => simp [okG] at hok
   | succ n ih =>
-    simp only [instOnlyF, mroF]
+    simp only [instOnlyG, mroF, if_neg (okG_not_busy hok)]
     rw [get_update_dict _ _ _ (nodup_ownInst _), get_ownInst,
-      get_mergeBases _ _ _ _ (fun b _ => nodup_baseInstOnly n h b)]
+      get_mergeBases _ _ _ _ (fun b _ => nodup_baseInstOnly n (c :: busy) h b)]
     simp only [List.findSome?_cons, instEntry, findSome?_flatMap, Dict.get_nil, Option.or_none]
-    have hb : (getDef h c).bases.findSome? (fun b => get (baseInstOnly (instOnlyF n h) b) x) =
+    have hb : (getDef h c).bases.findSome? (fun b => get (baseInstOnly (instOnlyG n (c :: busy) h) b) x) =
         (getDef h c).bases.findSome? (fun a => (baseMro (mroF n h) a).findSome? (instEntry h x)) := by
       apply findSome?_congr_mem
       intro b hbm
       cases b with
-      | src d => exact ih d (okF_base hok hbm)
+      | src d => exact ih _ d (okG_base hok hbm)
       | builtin nm a i => simp [baseInstOnly, baseMro, instEntry]
       | unknown => simp [baseInstOnly, baseMro]
     rw [hb]
@@ -394,17 +438,17 @@ theorem get_runtimeInst (h : Hier) (c : ClassId) (x : String) :
 
 theorem get_classAttrs (h : Hier) (c : ClassId) (x : String) (ha : Acyclic h c) :
     get (classAttrs h c) x = classLookup h c x :=
-  get_classAttrsF _ h c x ha
+  get_classAttrsG _ [] h c x ha
 
 theorem get_instOnly (h : Hier) (c : ClassId) (x : String) (ha : Acyclic h c) :
     get (instOnly h c) x = (mro h c).findSome? (instEntry h x) :=
-  get_instOnlyF _ h c x ha
+  get_instOnlyG _ [] h c x ha
 
 theorem get_instAttrs (h : Hier) (c : ClassId) (x : String) (ha : Acyclic h c) :
     get (instAttrs h c) x =
       ((mro h c).findSome? (instEntry h x)).or ((classLookup h c x).or (runtimeInstLookup h c x)) := by
-  have h1 : (keys (instOnly h c)).Nodup := nodup_instOnlyF _ h c
-  have h2 : (keys (classAttrs h c)).Nodup := nodup_classAttrsF _ h c
+  have h1 : (keys (instOnly h c)).Nodup := nodup_instOnlyG _ _ h c
+  have h2 : (keys (classAttrs h c)).Nodup := nodup_classAttrsG _ _ h c
   unfold instAttrs
   simp only []
   rw [get_update_dict _ _ _ h1, get_update_dict _ _ _ h2,
@@ -548,5 +592,143 @@ theorem mroF_indep (n m : Nat) (h : Hier) (c : ClassId) (hn : okF n h c = true) 
     exact (okF_add n k h c hn).2.symm
   · obtain ⟨k, rfl⟩ := Nat.exists_eq_add_of_le hle
     exact (okF_add m k h c hm).2
+
+end SuppModel.Attrs
+
+/-! ### the guard bounds the recursion: totality on every hierarchy, cyclic ones included -/
+
+namespace SuppModel.Attrs
+open Dict
+
+theorem okG_succ (n : Nat) (busy : List ClassId) (h : Hier) (c : ClassId) (hok : okG n busy h c = true) :
+    okG (n + 1) busy h c = true := by
+  induction n generalizing busy c with
+  | zero => simp [okG] at hok
+  | succ n ih =>
+    have hnb := okG_not_busy hok
+    simp only [okG, Bool.and_eq_true, decide_eq_true_eq, List.all_eq_true] at hok ⊢
+    refine ⟨hnb, ?_⟩
+    intro b hb
+    cases b with
+    | src d => exact ih _ d (hok.2 _ hb)
+    | builtin nm a i => rfl
+    | unknown => rfl
+
+theorem mergeBases_congr (F G : Base → Dict Val) (bs : List Base) (init : Dict Val)
+    (hFG : ∀ b ∈ bs, F b = G b) : mergeBases F bs init = mergeBases G bs init := by
+  induction bs with
+  | nil => rfl
+  | cons b r ih =>
+    rw [mergeBases_cons, mergeBases_cons, hFG b (by simp), ih (fun b hb => hFG b (by simp [hb]))]
+
+/-- the classes of `h` that are not being collected: the measure the guard decreases -/
+def free (h : Hier) (busy : List ClassId) : Nat :=
+  ((h.map (·.1)).filter (fun k => decide (k ∉ busy))).length
+
+theorem filter_len_le {α : Type} (l : List α) (p q : α → Bool) (hpq : ∀ a, p a = true → q a = true) :
+    (l.filter p).length ≤ (l.filter q).length := by
+  induction l with
+  | nil => simp
+  | cons k r ih =>
+    rw [List.filter_cons, List.filter_cons]
+    cases hp : p k with
+    | true => rw [hpq k hp]; simp only [if_true, List.length_cons]; omega
+    | false =>
+      cases hq : q k with
+      | true => simp only [if_true, List.length_cons]; simp; omega
+      | false => simpa using ih
+
+theorem filter_len_lt {α : Type} (l : List α) (p q : α → Bool) (hpq : ∀ a, p a = true → q a = true)
+    (c : α) (hc : c ∈ l) (hpc : p c = false) (hqc : q c = true) :
+    (l.filter p).length < (l.filter q).length := by
+  induction l with
+  | nil => simp at hc
+  | cons k r ih =>
+    rw [List.filter_cons, List.filter_cons]
+    rcases List.mem_cons.mp hc with e | e
+    · subst e
+      have := filter_len_le r p q hpq
+      rw [hpc, hqc]; simp only [if_true, List.length_cons]; simp; omega
+    · have := ih e
+      cases hp : p k with
+      | true => rw [hpq k hp]; simp only [if_true, List.length_cons]; omega
+      | false =>
+        cases hq : q k with
+        | true => simp only [if_true, List.length_cons]; simp; omega
+        | false => simpa using this
+
+theorem filter_busy_lt (l : List ClassId) (busy : List ClassId) (c : ClassId) (hc : c ∈ l) (hb : c ∉ busy) :
+    (l.filter (fun k => decide (k ∉ c :: busy))).length < (l.filter (fun k => decide (k ∉ busy))).length := by
+  apply filter_len_lt l _ _ _ c hc
+  · simp
+  · simpa using hb
+  · intro a ha
+    simp only [List.mem_cons, not_or, decide_eq_true_eq] at ha ⊢
+    exact ha.2
+
+theorem getDef_bases_of_not_mem (h : Hier) (c : ClassId) (hc : c ∉ h.map (·.1)) : (getDef h c).bases = [] := by
+  have : h.lookup c = none := by
+    induction h with
+    | nil => rfl
+    | cons p r ih =>
+      obtain ⟨k, cd⟩ := p
+      simp only [List.map_cons, List.mem_cons, not_or] at hc
+      have hne : (c == k) = false := by simp [hc.1]
+      simp only [List.lookup_cons, hne]
+      exact ih hc.2
+  simp [getDef, this]
+
+theorem classAttrsG_stable (h : Hier) (n : Nat) (busy : List ClassId) (c : ClassId) (hn : free h busy < n) :
+    classAttrsG (n + 1) busy h c = classAttrsG n busy h c := by
+  induction n generalizing busy c with
+  | zero => omega
+  | succ n ih =>
+    rw [classAttrsG, classAttrsG]
+    by_cases hb : c ∈ busy
+    · simp [hb]
+    · simp only [if_neg hb]
+      congr 1
+      apply mergeBases_congr
+      intro b hbm
+      cases b with
+      | src d =>
+        by_cases hc : c ∈ h.map (·.1)
+        · exact ih (c :: busy) d (by have := filter_busy_lt _ busy c hc hb; unfold free at hn ⊢; omega)
+        · rw [getDef_bases_of_not_mem h c hc] at hbm; simp at hbm
+      | builtin nm a i => rfl
+      | unknown => rfl
+
+theorem instOnlyG_stable (h : Hier) (n : Nat) (busy : List ClassId) (c : ClassId) (hn : free h busy < n) :
+    instOnlyG (n + 1) busy h c = instOnlyG n busy h c := by
+  induction n generalizing busy c with
+  | zero => omega
+  | succ n ih =>
+    rw [instOnlyG, instOnlyG]
+    by_cases hb : c ∈ busy
+    · simp [hb]
+    · simp only [if_neg hb]
+      congr 1
+      apply mergeBases_congr
+      intro b hbm
+      cases b with
+      | src d =>
+        by_cases hc : c ∈ h.map (·.1)
+        · exact ih (c :: busy) d (by have := filter_busy_lt _ busy c hc hb; unfold free at hn ⊢; omega)
+        · rw [getDef_bases_of_not_mem h c hc] at hbm; simp at hbm
+      | builtin nm a i => rfl
+      | unknown => rfl
+
+theorem free_nil (h : Hier) : free h [] = h.length := by
+  unfold free
+  rw [List.filter_eq_self.mpr (by simp)]
+  simp
+
+theorem tables_total (h : Hier) (c : ClassId) (k : Nat) :
+    classAttrsG (fuel h + k) [] h c = classAttrs h c ∧ instOnlyG (fuel h + k) [] h c = instOnly h c := by
+  induction k with
+  | zero => exact ⟨rfl, rfl⟩
+  | succ k ih =>
+    have hf : free h [] < fuel h + k := by rw [free_nil]; unfold fuel; omega
+    exact ⟨(classAttrsG_stable h _ [] c hf).trans ih.1, (instOnlyG_stable h _ [] c hf).trans ih.2⟩
 
 end SuppModel.Attrs
